@@ -50,7 +50,7 @@ def main():
         "guard": "PEPPERCOMPILER_VERIF",
         "enable": "environment variable PEPPERCOMPILER_VERIF=1 (set by harness/core.py for every check); no build flag",
         "baseline_off_cmd": "cd /repo && env -u PEPPERCOMPILER_VERIF /venv/bin/python -m pytest -ra -q -p no:cacheprovider --timeout=900 --continue-on-collection-errors",
-        "source_commits": [],
+        "source_commits": ["3de3843"],
         "add_only": True,
       },
       "engines": [
